@@ -52,7 +52,7 @@ func addSpec(s *Spec) {
 }
 
 var portfolioMain = []string{"p1", "p2", "p3", "p4", "p5", "p8"}
-var portfolioAll = []string{"p1", "p2", "p3", "p4", "p5", "p6", "p7", "p8"}
+var portfolioAll = []string{"p1", "p2", "p3", "p4", "p5", "p6", "p7", "p8", "p9"}
 
 func init() {
 	addSpec(&Spec{ID: "C01", Title: "write-then-read returns exactly the records added", Level: "exploration",
@@ -171,7 +171,7 @@ func init() {
 		Rule: "encoder: every level sequence up to a length bound per width (observed_maxima exhaustive_encoder_len_w*) plus run-structured sequences (constant/random/ramp segments of lengths around 8, 63 groups, 2- and 3-byte headers, at every alignment) " +
 			"is encoded by internal/rle and judged by the strict specification decoder; decoder: the same sequences re-encoded by the reference under all segmentations (short) or 6 seeded styles and decoded by internal/rle, " +
 			"checking values, padding < 8 and bytes consumed with trailing data present; the public column API (OptionalField.DoWrite/DoRead) repeats both directions; distinct = block / sequence id",
-		Require:    []string{"encoder_closed_run_at_63_groups", "decoder_runs_over_63_groups", "decoder_rle_2byte_header", "encoder_header_bytes_2", "decoder_exhaustive_segmentations", "public_pages_written", "public_pages_read"},
+		Require:    []string{"encoder_closed_run_at_63_groups", "decoder_runs_over_63_groups", "decoder_rle_2byte_header", "encoder_header_bytes_2", "encoder_header_bytes_3", "decoder_rle_3byte_header", "decoder_bitpacked_3byte_header", "decoder_exhaustive_segmentations", "public_pages_written", "public_pages_read"},
 		Exhaustive: func(r *Run) bool { return false },
 		Extra: func(r *Run, cov map[string]interface{}) {
 			cov["exhaustive_part"] = fmt.Sprintf("encoder: all sequences of length <= %d/%d/%d/%d for widths 1/2/3/4; decoder: all segmentations of all sequences of length <= %d/%d/%d/%d",
@@ -218,7 +218,7 @@ func init() {
 	})
 	addSpec(&Spec{ID: "C05", Title: "parquetgen never emits silently wrong code", Level: "translation_validation",
 		Rule: "programs = every struct shape of the bounded grammar (ordered forests of {leaf, group} x {required, optional, repeated}, depth <= 3, leaf types round-robin over the 8 primitives): " +
-			"quick all 1209 shapes with <= 4 nodes plus, per primitive type, the 24 shapes with <= 2 nodes whose leaves all have that type; thorough all 9471 with <= 5 nodes, the single-type shapes with <= 3 nodes and a fixed sample of 2000 with 6-8 nodes; each program is generated twice (determinism), compiled, and validated on its inputs: " +
+			"quick all 1209 shapes with <= 4 nodes plus, per primitive type, the 24 shapes with <= 2 nodes whose leaves all have that type, and T{A W; B W} for every W with <= 3 nodes (struct type reuse: equal group names under different parents); thorough all 9471 with <= 5 nodes, the single-type shapes with <= 3 nodes and a fixed sample of 2000 with 6-8 nodes; each program is generated twice (determinism), compiled, and validated on its inputs: " +
 			"every structurally distinct record (nil/non-nil x list length 0,1,2; cap 150) alone and together at page sizes 1, 2, 1000 and in 3 batches, plus seeded random multi-row-group files, through the C02, C03 and C01 monitors; " +
 			"a failing program is a disagreement, matched against known_findings.json by (shape signature, failure kind); distinct = shape signature; non-trivial = shape has a group or an optional/repeated leaf",
 		EvalCounter:  "cases",
